@@ -204,6 +204,9 @@ func (r *vtRun) invokable(name, args, beh string, handler bool) (string, error) 
 		r.doPanic("vfpanic[" + name + "|" + args + "]")
 	}
 	out := name + "(" + args + ")"
+	if beh == "empty" { // the tool works; its whole output is the empty string
+		out = ""
+	}
 	r.emit("tend", "name", name, "args", args, "h", handler, "res", "ok", "out", out)
 	inv.acked()
 	return out, nil
@@ -226,6 +229,11 @@ func (r *vtRun) streamable(name, args, beh string, nchunks int) (*schema.StreamR
 		r.doPanic("vfpanic[" + name + "|" + args + "]")
 	}
 	chunks := vtChunks(name, args, nchunks)
+	if beh == "empty" { // only "" frames
+		for k := range chunks {
+			chunks[k] = ""
+		}
+	}
 	capacity := 0
 	if r.c.Mode == "stream" {
 		capacity = 4 // nobody may ever read (the call can fail at assembly): never block the producer
@@ -340,7 +348,7 @@ func (r *vtRun) control(done chan struct{}) {
 		if r.c.Mode == "stream" && step > 1 {
 			ok := vtSpinUntil(func() bool {
 				return atomic.LoadInt32(&r.consumed[i]) > before || atomic.LoadInt32(&r.termSeen) != 0
-			}, vtStepTimeout)
+			}, 400*time.Millisecond)
 			if !ok {
 				return
 			}
